@@ -1,0 +1,142 @@
+//! Verification seam (feature `verif`): a controllable stand-in for the rayon pipeline of
+//! `FileFormatter::exec_format`.
+//!
+//! `Paths` shadows the vector of paths so that the unchanged call text
+//! `paths.into_par_iter().map_init(init, f).for_each(g)` resolves to the inherent methods below
+//! instead of rayon's traits. The items are then processed by `Runtime::workers()` scoped threads
+//! that share one queue, each with its own `init()` state (as rayon does per work split), and the
+//! registered [`Runtime`] is told about every scheduling-relevant step so that a harness can
+//! decide which worker runs next. Without a registered runtime there is one worker and no
+//! scheduling: the behaviour is that of a sequential iterator.
+use std::collections::VecDeque;
+use std::path::Path;
+use std::sync::{Arc, Mutex, RwLock};
+
+pub trait Runtime: Send + Sync {
+    /// Number of worker threads to run the batch on.
+    fn workers(&self) -> usize;
+    /// Called by each worker thread before it does anything else.
+    fn enter(&self, worker: usize);
+    /// Called by each worker thread when the queue is exhausted.
+    fn exit(&self, worker: usize);
+    /// Called before each step: `pick` (take the next path), `open` (open, read, decode and
+    /// format), `write` (seek and write), `set_len` (truncate) and `report` (hand the result to
+    /// the error handler).
+    fn point(&self, kind: &'static str, path: &Path);
+}
+
+static RUNTIME: RwLock<Option<Arc<dyn Runtime>>> = RwLock::new(None);
+
+pub fn set_runtime(rt: Option<Arc<dyn Runtime>>) {
+    *RUNTIME.write().unwrap() = rt;
+}
+
+fn runtime() -> Option<Arc<dyn Runtime>> {
+    RUNTIME.read().unwrap().clone()
+}
+
+pub fn point(kind: &'static str, path: &Path) {
+    if let Some(rt) = runtime() {
+        rt.point(kind, path)
+    }
+}
+
+pub struct Paths<T>(Vec<T>);
+
+impl<T> Paths<T> {
+    pub fn new(items: Vec<T>) -> Self {
+        Paths(items)
+    }
+
+    pub fn into_par_iter(self) -> Self {
+        self
+    }
+
+    pub fn map_init<S, R, I, F>(self, init: I, f: F) -> MapInit<T, I, F>
+    where
+        I: Fn() -> S + Sync,
+        F: Fn(&mut S, T) -> R + Sync,
+    {
+        MapInit {
+            items: self.0,
+            init,
+            f,
+        }
+    }
+}
+
+impl<T> Paths<T> {
+    pub fn map<R, F>(self, f: F) -> MapInit<T, impl Fn() + Sync, impl Fn(&mut (), T) -> R + Sync>
+    where
+        F: Fn(T) -> R + Sync,
+    {
+        self.map_init(|| (), move |_, item| f(item))
+    }
+
+    pub fn map_with<S, R, F>(
+        self,
+        state: S,
+        f: F,
+    ) -> MapInit<T, impl Fn() -> S + Sync, impl Fn(&mut S, T) -> R + Sync>
+    where
+        S: Clone + Send + Sync,
+        F: Fn(&mut S, T) -> R + Sync,
+    {
+        self.map_init(move || state.clone(), f)
+    }
+
+    pub fn with_min_len(self, _min: usize) -> Self {
+        self
+    }
+
+    pub fn with_max_len(self, _max: usize) -> Self {
+        self
+    }
+}
+
+pub struct MapInit<T, I, F> {
+    items: Vec<T>,
+    init: I,
+    f: F,
+}
+
+impl<T: Send, I, F> MapInit<T, I, F> {
+    pub fn for_each<S, R, G>(self, g: G)
+    where
+        I: Fn() -> S + Sync,
+        F: Fn(&mut S, T) -> R + Sync,
+        G: Fn(R) + Sync,
+    {
+        let rt = runtime();
+        let workers = rt.as_ref().map(|r| r.workers()).unwrap_or(1).max(1);
+        let queue = Mutex::new(self.items.into_iter().collect::<VecDeque<T>>());
+        let (init, f) = (&self.init, &self.f);
+        std::thread::scope(|s| {
+            for worker in 0..workers {
+                let (rt, queue, g) = (rt.clone(), &queue, &g);
+                s.spawn(move || {
+                    if let Some(rt) = &rt {
+                        rt.enter(worker);
+                    }
+                    let mut state = init();
+                    loop {
+                        if let Some(rt) = &rt {
+                            rt.point("pick", Path::new(""));
+                        }
+                        let Some(item) = queue.lock().unwrap().pop_front() else {
+                            break;
+                        };
+                        let r = f(&mut state, item);
+                        if let Some(rt) = &rt {
+                            rt.point("report", Path::new(""));
+                        }
+                        g(r);
+                    }
+                    if let Some(rt) = &rt {
+                        rt.exit(worker);
+                    }
+                });
+            }
+        });
+    }
+}
